@@ -3,19 +3,17 @@ From Xdis Require Import Base.Prelude Base.Result Base.OpTable Model.Instr Spec.
   Model.ResolveChecks Proofs.InstrProofs Proofs.C02Tables Proofs.ResolveProofs.
 
 (* For the nine versions with an installed interpreter, every opcode (0..255), EVERY operand value
-   and every set of tables (constants, names, locals, cells, frees of any length) in which no free
-   variable is also a local: xdis resolves the operand to the same table entry CPython's dis
+   and every set of tables (constants, names, locals, cells, frees of any length, a free variable
+   may have the name of a local): xdis resolves the operand to the same table entry CPython's dis
    resolves it to (wherever dis resolves it at all: 3.11 leaves KW_NAMES unresolved) - incl. the 3.11+ merged locals+cells+frees table (a parameter that is also a
    cell appears once), LOAD_GLOBAL / LOAD_ATTR >> 1, LOAD_SUPER_ATTR >> 2, COMPARE_OP >> 4 (3.12)
    and >> 5 (3.13), and the 3.13 paired LOAD_FAST / STORE_FAST operands. *)
 Theorem C03_resolve : forall T R tb op arg, In (T, R) oracle_pairs -> 0 <= op < 256 -> spec_plan R op <> PlNone ->
-  forallb (fun f => negb (zmem f (tb_vars tb))) (tb_frees tb) = true ->
   model_resolve T tb op arg = spec_resolve R tb op arg.
 Proof. exact resolve_agree. Qed.
 
-(* the merged table is built in CPython's order *)
-Theorem C03_localsplus_order : forall tb, forallb (fun f => negb (zmem f (tb_vars tb))) (tb_frees tb) = true ->
-  model_localsplus tb = spec_localsplus tb.
+(* the merged table is built in CPython's order: locals, the cells that are not locals, every free variable *)
+Theorem C03_localsplus_order : forall tb, model_localsplus tb = spec_localsplus tb.
 Proof. exact localsplus_eq. Qed.
 
 (* comparison operators: same index everywhere; the spelling differs from CPython's only at
@@ -24,6 +22,6 @@ Theorem C03_cmp_spelling : forallb (fun '(_, d) => forallb (fun i => zmem i [7; 
 Proof. exact cmp_spelling_known. Qed.
 
 Example C03_nonvacuous :
-  let tb := {| tb_consts := []; tb_names := []; tb_vars := [118000; 118001; 118002; 118003]; tb_cells := [118000; 99001]; tb_frees := [102000]; tb_ncmp := 6 |} in
-  model_localsplus tb = [118000; 118001; 118002; 118003; 99001; 102000] /\ forallb (fun f => negb (zmem f (tb_vars tb))) (tb_frees tb) = true.
+  let tb := {| tb_consts := []; tb_names := []; tb_vars := [118000; 118001; 118002; 118003]; tb_cells := [118000; 99001]; tb_frees := [102000; 118001]; tb_ncmp := 6 |} in
+  model_localsplus tb = [118000; 118001; 118002; 118003; 99001; 102000; 118001].
 Proof. exact localsplus_example. Qed.
